@@ -182,6 +182,7 @@ Record proto := {
 Inductive rep : Type :=
 | RArray (dt : N) (shape : list N) (store : list N)        (* ir.Tensor over a numpy array *)
 | RTorch (dt : N) (shape : list N) (store : list N)        (* tensor_adapters.TorchTensor *)
+| RTorchConj (dt : N) (shape : list N) (storage : list N)  (* TorchTensor over a lazily conjugated complex view *)
 | RPacked (dt : N) (shape : list N) (raw : list N)         (* ir.PackedTensor over packed uint8 *)
 | RProto (p : proto)                                       (* serde.TensorProtoTensor *)
 | RExternal (dt : N) (shape : list N) (file : list N) (offset length : option N)
@@ -189,13 +190,13 @@ Inductive rep : Type :=
 
 Fixpoint r_dtype (r : rep) : N :=
   match r with
-  | RArray dt _ _ | RTorch dt _ _ | RPacked dt _ _ | RExternal dt _ _ _ _ | RLazy dt _ _ => dt
+  | RArray dt _ _ | RTorch dt _ _ | RTorchConj dt _ _ | RPacked dt _ _ | RExternal dt _ _ _ _ | RLazy dt _ _ => dt
   | RProto p => p_dtype p
   end.
 
 Fixpoint r_shape (r : rep) : list N :=
   match r with
-  | RArray _ s _ | RTorch _ s _ | RPacked _ s _ | RExternal _ s _ _ _ | RLazy _ s _ => s
+  | RArray _ s _ | RTorch _ s _ | RTorchConj _ s _ | RPacked _ s _ | RExternal _ s _ _ _ | RLazy _ s _ => s
   | RProto p => p_dims p
   end.
 
@@ -373,6 +374,12 @@ Fixpoint r_numpy (r : rep) : res (list N) :=
   match r with
   | RArray _ _ store => Ok store
   | RTorch _ _ store => Ok store
+  | RTorchConj dt _ storage =>
+      (* numpy(force=True) resolves the conjugation: the sign bit of the imaginary (high) half flips *)
+      match bitwidth dt with
+      | Some bw => Ok (map (fun s => N.lxor s (2 ^ (bw - 1))) storage)
+      | None => Raise TypeError
+      end
   | RPacked dt shape raw => packed_numpy dt shape raw
   | RProto p => proto_numpy p
   | RExternal dt shape file off _ => ext_load dt shape file off
@@ -386,6 +393,13 @@ Fixpoint r_tobytes (r : rep) : res (list N) :=
       (* bytes of the contiguous torch storage: element_size() bytes per element *)
       match bitwidth dt with
       | Some bw => Ok (encode_elems (itemsize_of bw) store)
+      | None => Raise TypeError
+      end
+  | RTorchConj dt _ storage =>
+      (* _get_cbytes: detach().cpu().contiguous() keeps the conj bit lazy, so the bytes are the UNresolved storage
+         (known finding torch-conj-bytes) *)
+      match bitwidth dt with
+      | Some bw => Ok (encode_elems (itemsize_of bw) storage)
       | None => Raise TypeError
       end
   | RPacked dt shape raw => packed_raw dt shape raw
